@@ -37,6 +37,15 @@ def run(ctx):
     words += [(w, None, 'classword') for th, w in cw if th]
     groups, res = D.run_words(ctx, rnd, words, thumb=True)
     D.check_cube_class(res, ctx)
+    # every 32-bit class word (incl. MSR, the hint and barrier space, CLREX) inside an IT block whose condition FAILS, every
+    # failing (cond, NZCV) pair in turn: the condition of a 32-bit Thumb instruction comes from the IT state, never from its own bits
+    from .c05 import neg_thumb, FAILING
+    t32cw = [w for th, w in cw if th and w >> 16]
+    ngr = C.parallel(neg_thumb, [dict(name='t32cls-condfail-%d' % i, seed=ctx.seed * 17 + i, words=t32cw[i::4], pairs=FAILING[i::4],
+                                      modes='all', cfg={'arch_version': 7}) for i in range(4)])
+    nres = C.judge_groups(ctx, ngr, lambda c, v, e: D.clause_filter(c, v, e) or c == 'nop-on-condfail', rnd=rnd, tags_of=D.tags_of,
+                          site_of=lambda e, v: (e.get('cls') or v['path']))
+    ctx.extra['t32_class_words_in_failing_it_blocks'] = len(nres)
     # the repository's own tests as a trace source: every emulate_cycle() they perform, judged on the complete state
     sg, summary = ST.groups(thumb=True)
     sres = C.judge_groups(ctx, sg, D.clause_filter, rnd=rnd, tags_of=D.tags_of, site_of=lambda e, v: (e.get('cls') or v['path']))
